@@ -34,7 +34,7 @@ namespace {
 const int EXIT_VIOLATED = 42;
 using db_t = unodb::mutex_db<std::uint64_t, unodb::value_view>;
 
-enum okind { O_GET, O_INS, O_REM, O_EMPTY, O_SCAN };
+enum okind { O_GET, O_INS, O_REM, O_EMPTY, O_SCAN, O_STATS, O_CLEAR };
 struct rec {
   okind k;
   std::uint64_t key;
@@ -71,7 +71,10 @@ bool lin_key(std::vector<const rec*> ops, bool present, std::string val) {
     if (o->call > minret) continue;
     bool ok, np = present;
     std::string nv = val;
-    if (o->k == O_GET) {
+    if (o->k == O_CLEAR) {
+      ok = true;
+      np = false;
+    } else if (o->k == O_GET) {
       ok = (o->res == present) && (!present || o->val == val);
     } else if (o->k == O_INS) {
       ok = (o->res == !present);
@@ -107,6 +110,7 @@ run_result do_run(const run_cfg& cfg) {
     for (unsigned i = 0; i < cfg.keys; ++i) universe.push_back(base | (r.below(4) << 8) | i);
   }
   std::atomic<std::uint64_t> progress{0};
+  const bool allow_clear = (cfg.seed & 3) == 0;  // a quarter of the runs use clear()
   std::vector<std::thread> th;
   for (unsigned t = 0; t < cfg.threads; ++t) {
     th.emplace_back([&, t] {
@@ -118,7 +122,8 @@ run_result do_run(const run_cfg& cfg) {
         rec o{};
         const unsigned w = static_cast<unsigned>(r.below(100));
         o.key = universe[r.below(universe.size())];
-        o.k = w < 35 ? O_GET : w < 65 ? O_INS : w < 93 ? O_REM : w < 97 ? O_EMPTY : O_SCAN;
+        o.k = w < 34 ? O_GET : w < 63 ? O_INS : w < 90 ? O_REM : w < 93 ? O_EMPTY : w < 96 ? O_SCAN : w < 99 ? O_STATS : O_CLEAR;
+        if (o.k == O_CLEAR && !allow_clear) o.k = O_EMPTY;
         // perturbation plan (seeded): yield / short sleep before some operations
         const unsigned pz = static_cast<unsigned>(r.below(64));
         if (pz == 0) std::this_thread::sleep_for(std::chrono::microseconds(1 + r.below(50)));
@@ -166,6 +171,24 @@ run_result do_run(const run_cfg& cfg) {
           case O_EMPTY:
             o.call = clock.fetch_add(1);
             o.res = db.empty();
+            o.ret = clock.fetch_add(1);
+            break;
+          case O_STATS: {
+            // statistics getters take the lock too (TSan sees it if they do not)
+            o.call = clock.fetch_add(1);
+            // (each getter locks separately: their values are not a joint snapshot, nothing to compare)
+            (void)db.get_node_counts();
+            (void)db.get_current_memory_use();
+            (void)db.get_growing_inode_counts();
+            (void)db.get_shrinking_inode_counts();
+            (void)db.get_key_prefix_splits();
+            o.ret = clock.fetch_add(1);
+            break;
+          }
+          case O_CLEAR:
+            // clear() removes every key: recorded as a barrier for the per-key histories
+            o.call = clock.fetch_add(1);
+            db.clear();
             o.ret = clock.fetch_add(1);
             break;
           case O_SCAN: {
@@ -255,6 +278,11 @@ run_result do_run(const run_cfg& cfg) {
       if (o.k == O_GET || o.k == O_INS || o.k == O_REM) byk[o.key].push_back(&o);
       if (o.release) ++rr.held_hits;
     }
+  // clear(): an operation on every key of the universe (leaves it absent, no result to check)
+  for (auto& H : hist)
+    for (auto& o : H)
+      if (o.k == O_CLEAR)
+        for (auto k : universe) byk[k].push_back(&o);
   for (auto& g : finals) byk[g.key].push_back(&g);
   bool overlap_same_key = false;
   for (auto& [k, ops_unsorted] : byk) {
